@@ -74,10 +74,8 @@ func supplement(r *engine.Run, iterations int, limit time.Duration) map[string]i
 		r.Fail(engine.Failure{Sig: "supplement:go-race-detector:" + k, Detail: fmt.Sprintf("free-running `go test -race` on the un-rewritten code: the Go race detector reported a data race between %s (%d reports in %d iterations per scenario). Sampling result of the supplement.", strings.ReplaceAll(k, "/", " and "), races[k], iterations),
 			Case: map[string]interface{}{"supplement": "go test -race ./checks/sched/supplement", "functions": k, "reports": races[k]}})
 	}
-	if noReturn > 0 {
-		r.Fail(engine.Failure{Sig: "supplement:no-return:Shutdown", Detail: fmt.Sprintf("free-running run on the un-rewritten code: Shutdown()/Run() did not return within 2 s in %d iterations", noReturn),
-			Case: map[string]interface{}{"supplement": "go test -race ./checks/sched/supplement", "iterations_without_return": noReturn}})
-	}
+	// "did not return within 2 s" is a wall-clock observation: on a loaded machine it would raise false alarms, so it is recorded
+	// in the evidence only (a Shutdown that cannot return is decided by the explorer as a deadlock, deterministically)
 	out["race_reports_by_function_pair"] = rs
 	out["shutdown_did_not_return"] = noReturn
 	return out
